@@ -34,7 +34,7 @@ RCORR = (1, 2, 3, 4, 5, 6, 7)
 # oracle tag -> (corr tags that must be absent, [(guard tag, finding id)])
 ORACLE_R = {
     21: ((2,), [(201, 'C20-FINAL-OBJ-NEQ-LAST')]),
-    22: ((3,), [(201, 'C20-FINAL-OBJ-NEQ-LAST')]),
+    22: ((3,), [(201, 'C20-FINAL-OBJ-NEQ-LAST'), (206, 'C20-FORTRAN-EXP3')]),
     23: ((4,), []), 24: ((5,), []), 25: ((), []),
     26: ((), []), 27: ((), [(204, 'C20-JSON-15-DECIMALS')]), 28: ((6,), []),
     29: ((1,), []),
